@@ -3,7 +3,7 @@
 // Contracts for the deductive verifier in /verif (comment-only: adds no declarations).
 package main
 
-//@ use strings nethttp fmt oauth2 neturl
+//@ use strings nethttp fmt oauth2 neturl time ssh crypto errors
 
 // ---- C17: post-login redirects stay on the keymaster origin ------------------------------------
 //@ pure func noControlBytes(s string) bool = (forallIdx j int :: 0 <= j && j < len(s) ==> s[j] >= 0x20 && s[j] != 0x7f)
@@ -72,3 +72,47 @@ package main
 //@   observe domain0 string = client.AllowedRedirectDomains[0]
 //@   observe domain1 string = client.AllowedRedirectDomains[1]
 //@   ensures ok ==> (exists i int :: 0 <= i && i < len(client.AllowedRedirectDomains) && hostOK(hostnameOf(urlHostOf(origin)), client.AllowedRedirectDomains[i]))  #C13.cors-host @C13
+
+// ---- per-request ghost context: what the credential check established -----------------------------------
+//@ ghost var ghostAuthed bool
+//@ ghost var ghostAuthUser string
+//@ ghost var ghostAuthLevel int
+//@ ghost var ghostAuthIssuedAt int64
+
+//@ func (*RuntimeState).checkAuth
+//@   results ai, err
+//@   ensures err == nil ==> ai != nil
+//@   ensures err != nil ==> ai == nil
+//@   ensures fresh(ai)
+//@   ghostset ghostAuthed bool = true if err == nil
+//@   ghostset ghostAuthUser string = ai.Username if err == nil
+//@   ghostset ghostAuthLevel int = ai.AuthType if err == nil
+//@   ghostset ghostAuthIssuedAt int64 = timeNanos(ai.IssuedAt) if err == nil
+
+// ---- C01: which proven factors satisfy the operator's list (from the property text) ----------------------
+//@ pure func factorMatches(method string, lvl int) bool = method == "password" || (method == "U2F" && lvl&AuthTypeU2F == AuthTypeU2F) || (method == "TOTP" && lvl&AuthTypeTOTP == AuthTypeTOTP) || (method == "SymantecVIP" && lvl&AuthTypeSymantecVIP == AuthTypeSymantecVIP) || (method == "IPCertificate" && lvl&AuthTypeIPCertificate == AuthTypeIPCertificate) || (method == "Okta2FA" && lvl&AuthTypeOkta2FA == AuthTypeOkta2FA) || (method == "WebauthForCLI" && lvl&AuthTypeWebauthForCLI == AuthTypeWebauthForCLI)
+//@ pure func sufficientLevel(list []string, lvl int) bool = lvl&AuthTypeU2F == AuthTypeU2F || (exists j int :: 0 <= j && j < len(list) && factorMatches(list[j], lvl))
+
+//@ func (*RuntimeState).certGenHandler
+//@   loop 1 (sufficientAuthLevel bool, rangeindex int, authData *authInfo) invariant sufficientAuthLevel ==> (exists j int :: 0 <= j && j <= rangeindex && factorMatches(state.Config.Base.AllowedAuthBackendsForCerts[j], authData.AuthType))  #C01.level-loop @C01
+//@   loop 1 (sufficientAuthLevel bool, rangeindex int, authData *authInfo) invariant (exists j int :: 0 <= j && j <= rangeindex && factorMatches(state.Config.Base.AllowedAuthBackendsForCerts[j], authData.AuthType)) ==> sufficientAuthLevel  #C01.served-loop @C01
+
+//@ func (*RuntimeState).postAuthSSHCertHandler
+//@   requires state.Signer != nil                                                                         #C09.sealed-ssh @C09
+//@   requires ghostAuthed                                                                                 #C06.authed-ssh @C06,C01
+//@   requires sufficientLevel(state.Config.Base.AllowedAuthBackendsForCerts, ghostAuthLevel)               #C01.level-ssh @C01
+//@   requires targetUser == ghostAuthUser                                                                 #C02.self-ssh @C02
+//@   requires duration <= maxCertificateLifetime                                                          #C03.cap-ssh @C03
+//@   requires nowNanos() + int64(duration) <= ghostAuthIssuedAt + int64(maxCertificateLifetime)            #C03.session-ssh @C03
+
+//@ func (*RuntimeState).postAuthX509CertHandler
+//@   requires keySigner != nil && keySigner == state.Signer                                               #C09.sealed-x509 @C09
+//@   requires ghostAuthed                                                                                 #C06.authed-x509 @C06,C01
+//@   requires sufficientLevel(state.Config.Base.AllowedAuthBackendsForCerts, ghostAuthLevel)               #C01.level-x509 @C01
+//@   requires targetUser == ghostAuthUser                                                                 #C02.self-x509 @C02
+//@   requires duration <= maxCertificateLifetime                                                          #C03.cap-x509 @C03
+//@   requires nowNanos() + int64(duration) <= ghostAuthIssuedAt + int64(maxCertificateLifetime)            #C03.session-x509 @C03
+
+//@ func getValidSSHPublicKey
+//@   results key, userErr, err
+//@   ensures userErr == nil && err == nil ==> key == sshParse(userPubKey) && strongKey(sshCryptoKey(key))   #C10.ssh-validated @C10
